@@ -81,7 +81,7 @@ pub struct Inner {
 pub struct Outer {
     pub flag: bool,
     pub n: u8,
-    #[rename = "o p"]
+    #[rename = "o\"p"]
     pub opt: Option<u8>,
     pub inner: Inner,
 }
@@ -116,7 +116,7 @@ pub fn derive_struct<S: Src>(s: &mut S) {
     let want = Value::Object(vec![
         ("flag".to_string(), Value::Bool(flag)),
         ("n".to_string(), Value::Number(n as f64)),
-        ("o p".to_string(), if has { Value::Number(o as f64) } else { Value::Null }),
+        ("o\"p".to_string(), if has { Value::Number(o as f64) } else { Value::Null }),
         ("inner".to_string(), Value::Object(vec![("k".to_string(), Value::Number(k as f64))])),
     ]);
     assert!(veq(&j, &want), "C14 derive: object keyed by field (or renamed) names in declaration order");
